@@ -715,7 +715,7 @@ def subchecks(ctx):
         Sub("sequential", seq_case(), prop_sequential, {"quick": 125, "thorough": 10000},
             nontrivial=nt_sequential, classes=classes_sequential,
             rule="state before == after; repeat, copy, later, final and snapshot evaluations give one value"),
-        Sub("batch", batch_case(), prop_batch, {"quick": 30, "thorough": 2000},
+        Sub("batch", batch_case(), prop_batch, {"quick": 60, "thorough": 2000},
             nontrivial=lambda c: True, classes=classes_batch,
             rule="3..6 points rebuilt and evaluated in two visiting orders within one command; >= 2 accepted"),
         Sub("threads", plan_case(reps), prop_threads, {"quick": 15, "thorough": 1000},
